@@ -13,7 +13,10 @@ contract(J + "json_default", props=["C10"], types={"o": "Any"}, returns="Any",
          modifies=["#CALLS", "#NTOP"],
          ensures=[("a-path-becomes-text", "implies(isinst(o, 'Path'), is_str(result))", ["C10"]),
                   ("dates-and-times-become-what-isoformat-returns",
-                   "implies(not isinst(o, 'Path') and (isinst(o, 'date') or isinst(o, 'time')), last(CALLS).tag == 'ret' and box(result) == last(CALLS).d and len(CALLS) == len(old(CALLS)) + 1)", ["C10"]),
+                   "implies(not isinst(o, 'Path') and (isinst(o, 'date') or isinst(o, 'time')), last(CALLS).tag == 'ret' and box(result) == last(CALLS).d and len(CALLS) == len(old(CALLS)) + 1 "
+                   "and last(CALLS).b is not None)", ["C10"]),
+                  # (.b holds the argument tuple of a method call on the value -- o.isoformat() -- and is None for the str()/repr() protocol calls:
+                  #  str(o) differs from isoformat() for datetime subclasses, seeded change C10-4)
                   ("a-set-becomes-a-list-of-exactly-its-elements",
                    "implies(not isinst(o, 'Path') and not isinst(o, 'date') and not isinst(o, 'time') and isinst(o, 'set'), "
                    "is_list(box(result)) and len(seq(box(result))) == card(dict_of(o)) and forall(lambda v: contains(seq(box(result)), v) == contains(dict_of(o), v), 'val') and CALLS == old(CALLS))", ["C10"]),
